@@ -210,7 +210,8 @@ def run(ctx, rep):
 
     # ---------------- N7 number of long-name slots = ceil(units / 13)
     GN = facts.fns.get('fatfs::dir::LfnEntriesGenerator::new')
-    if GN is not None:
+    # (the build without `lfn` has a stub generator that yields nothing: no long-name slots exist there)
+    if GN is not None and 'fatfs::dir::MAX_LONG_DIR_ENTRIES' in facts.consts:
         from rules.siblings import arith_fingerprint
         ops, calls_ = arith_fingerprint(GN)
         part = facts.consts.get('fatfs::dir_entry::LFN_PART_LEN', {}).get('val', 13)
